@@ -63,11 +63,10 @@ def _emit(run, consts, part):
 
 def _reader_mc(run, consts, dom, coverage=False):
     """Model-check the reader machine on one stream domain (coverage is slow: only on a small domain)."""
-    consts = dict(consts, MutN=1, MutC=1) if coverage else consts
     name = f'_gen_c17_reader_{dom}{"_cov" if coverage else ""}.cfg'
     cfg = _write_cfg(name, consts,
-                     f'  StreamDomain = "{dom}"\nINVARIANT Refines\nINVARIANT ReadBound\nINVARIANT TypeOK\n'
-                     'PROPERTY Terminates\n')
+                     f'  StreamDomain = "{dom}"\n' + ('' if coverage else 'INVARIANT Refines\n') +
+                     'INVARIANT ReadBound\nINVARIANT TypeOK\nPROPERTY Terminates\n')
     return run_tlc('ChunkReader', cfg, workers=1 if coverage else 2, coverage=coverage, timeout=1500)
 
 
@@ -558,7 +557,7 @@ def check(run, replay_path=None):  # noqa: ARG001, C901, PLR0912, PLR0915
     with ThreadPoolExecutor(max_workers=8) as pool:
         futs = {p: pool.submit(_emit, run, consts, p) for p in parts}
         rfuts = {d: pool.submit(_reader_mc, run, consts, d) for d in ('short', 'mutant')}
-        cov = pool.submit(_reader_mc, run, consts, 'mutant', True)
+        cov = pool.submit(_reader_mc, run, consts, 'tiny', True)
         cases = {}
         for p in parts:
             res, cases[p] = futs[p].result()
